@@ -201,7 +201,31 @@ Proof.
   apply Forall_forall. intros x Hx. apply (proj1 (Forall_forall _ _) Hall). eapply In_firstn_In. exact Hx.
 Qed.
 
-(* the full statement is false of the code as it is: uint8[8] followed by complex128 *)
+(* fix: D11 -- with the padding unit 16 every supported element size (1, 2, 4, 8, 16) is aligned, for ALL leaf lists *)
+Definition supported (e : nat) : bool := (e =? 1) || (e =? 2) || (e =? 4) || (e =? 8) || (e =? 16).
+
+Lemma supported_divides e : supported e = true -> 0 < e /\ Nat.divide e 16.
+Proof.
+  unfold supported. rewrite !orb_true_iff, !Nat.eqb_eq. intros [[[[->| ->]| ->]| ->]| ->]; (split; [lia|]).
+  - exists 16. reflexivity.
+  - exists 8. reflexivity.
+  - exists 4. reflexivity.
+  - exists 2. reflexivity.
+  - exists 1. reflexivity.
+Qed.
+
+Theorem layout_aligned : forall ls i sg l,
+  Forall (fun l => supported (sp_esz l) = true) ls ->
+  nth_error (layout true ls) i = Some sg -> nth_error ls i = Some l -> s_start sg mod sp_esz l = 0.
+Proof.
+  intros ls i sg l Hall Hs Hl.
+  assert (Hsup : supported (sp_esz l) = true) by (apply (proj1 (Forall_forall _ _) Hall); eapply nth_error_In; exact Hl).
+  destruct (supported_divides _ Hsup) as [He Hd].
+  unfold layout in Hs. change align_unit with 16 in Hs.
+  now apply (layout_aligned_partial 16 ls ltac:(lia) i sg l).
+Qed.
+
+(* ... and the old padding unit 8 was not enough: uint8[8] followed by complex128 *)
 Definition aligned_statement (A : nat) : Prop :=
   forall ls i sg l, nth_error (layout_from A true 0 ls) i = Some sg -> nth_error ls i = Some l -> 0 < sp_esz l ->
     s_start sg mod sp_esz l = 0.
